@@ -224,6 +224,54 @@ theorem C19_before_fix_resource_forgotten (r : String) (rest : List String) :
     Announce.rm r ∉ announceBeforeFix (r :: rest) := by
   simp [announceBeforeFix]
 
+
+/-! A waiting request -/
+
+/-- whatever appears in the registry while a request waits, the session it is handed is open and was
+    registered at the tick it was taken -/
+theorem C19_wait_open (ticks : List (List Sess)) (s : Sess) (h : waitPick ticks = some s) :
+    s.closed = false ∧ ∃ reg ∈ ticks, s ∈ reg := by
+  induction ticks with
+  | nil => simp [waitPick] at h
+  | cons reg rest ih =>
+    unfold waitPick at h
+    cases hf : firstOpen reg with
+    | some x =>
+      rw [hf] at h
+      simp only [Option.some.injEq] at h
+      subst h
+      unfold firstOpen at hf
+      have hm := List.mem_of_find?_eq_some hf
+      have hp := List.find?_some hf
+      refine ⟨by simpa using hp, reg, by simp, hm⟩
+    | none =>
+      rw [hf] at h
+      obtain ⟨hc, reg', hr, hs⟩ := ih h
+      exact ⟨hc, reg', by simp [hr], hs⟩
+
+/-- nil only when no open session ever appeared -/
+theorem C19_wait_nil (ticks : List (List Sess)) (h : waitPick ticks = none) :
+    ∀ reg ∈ ticks, ∀ s ∈ reg, s.closed = true := by
+  induction ticks with
+  | nil => simp
+  | cons reg rest ih =>
+    unfold waitPick at h
+    cases hf : firstOpen reg with
+    | some x => rw [hf] at h; simp at h
+    | none =>
+      rw [hf] at h
+      intro reg' hr s hs
+      rcases List.mem_cons.mp hr with rfl | hr
+      · unfold firstOpen at hf
+        have := List.find?_eq_none.mp hf s hs
+        simpa using this
+      · exact ih h reg' hr s hs
+
+/-- the loop before the repair handed out a closed session (finding C19-waiting-request-gets-closed-session) -/
+theorem C19_before_fix_wait_closed :
+    waitPickBeforeFix [[], [{ id := 7, addr := "a:1", closed := true }], [{ id := 8, addr := "a:1", closed := false }]]
+      = some { id := 7, addr := "a:1", closed := true } := by decide
+
 /-! Non-vacuity -/
 example : allowed .xid (runOps {} [.open_ 1 "10.0.0.1:8091", .open_ 2 "10.0.0.2:8091", .close 1]) "10.0.0.2:8091:77"
     = [{ id := 2, addr := "10.0.0.2:8091", closed := false }] := by decide
